@@ -10,6 +10,15 @@ import gen_words as G
 # that the everyday check does not re-report it through unrelated oracles).
 AVOID: set[str] = set()
 
+# Layout decisions (where soft line breaks go, runs of spaces, lazy / indented continuation lines, number of blank
+# lines between blocks, spelling of hard breaks, final newline, CRLF, uniform indentation) are drawn from LAYOUT when
+# it is set, so that the same content seed with two layout seeds gives two layouts of one document (C03).
+LAYOUT: random.Random | None = None
+
+
+def _L(rng):
+    return LAYOUT if LAYOUT is not None else rng
+
 WORDS = G.PLAIN + ["the", "quick", "brown", "fox", "jumps", "over", "lazy", "dog", "Hello", "world", "text", "more", "stuff", "sentence", "here", "and", "then", "finally"]
 
 
@@ -67,23 +76,26 @@ def inline_seq(rng, n, depth=0, hazards=True) -> str:
 
 def para_lines(rng, hazards=True) -> list[str]:
     n = rng.choice([1, 2, 4, 7, 12, 20, 35])
+    if "hazard_words" in AVOID:
+        hazards = False
     toks = [inline(rng, 0, hazards) for _ in range(n)]
     if "marker_first_word" in AVOID:
         toks[0] = inline(rng, 0, False)
+    hard = [rng.random() < 0.055 for _ in toks]           # content: a hard break before token i
+    for i in range(1, n):
+        if hard[i] and "marker_first_word" in AVOID:
+            toks[i] = inline(rng, 0, False)                # the word after a hard break heads a segment
+    L = _L(rng)
     lines, cur = [], ""
     for i, t in enumerate(toks):
-        if cur and rng.random() < 0.18:
-            r = rng.random()
-            if r < 0.15:
-                cur += "\\"
-            elif r < 0.3:
-                cur += "  "
-            if r < 0.3 and "marker_first_word" in AVOID:
-                t = inline(rng, 0, False)      # the word after a hard break heads a segment
+        if cur and hard[i]:
+            lines.append(cur + ("\\" if L.random() < 0.5 else "  "))
+            cur = t
+        elif cur and L.random() < 0.13:
             lines.append(cur)
             cur = t
         else:
-            cur = (cur + rng.choice([" ", " ", " ", "  "]) + t) if cur else t
+            cur = (cur + L.choice([" ", " ", " ", "  "]) + t) if cur else t
     lines.append(cur)
     # a paragraph's first line must not start like another block by accident: keep hazards but avoid empties
     return [l if l.strip() else "x" for l in lines]
@@ -99,8 +111,9 @@ def block(rng: random.Random, depth=0) -> list[str]:
         r = r * 0.5
     if r < 0.30:
         ls = para_lines(rng)
-        if rng.random() < 0.15 and len(ls) > 1:
-            ls = [ls[0]] + [rng.choice(["  ", "   ", " "]) + l for l in ls[1:]]   # lazy / indented continuation
+        L = _L(rng)
+        if L.random() < 0.15 and len(ls) > 1:
+            ls = [ls[0]] + [L.choice(["  ", "   ", " "]) + l for l in ls[1:]]   # lazy / indented continuation
         return ls
     if r < 0.38:
         t = inline_seq(rng, rng.randint(1, 5), 0, hazards=False)
@@ -108,7 +121,7 @@ def block(rng: random.Random, depth=0) -> list[str]:
             t = "**" + t.replace("*", "") + "**"
         if rng.random() < 0.25:
             return [t, rng.choice(["===", "---", "=", "------"])]
-        return ["#" * rng.randint(1, 6) + " " + t + rng.choice(["", "", " #", " ##"])]
+        return ["#" * rng.randint(1, 6) + " " + t + _L(rng).choice(["", "", " #", " ##"])]
     if r < 0.45:
         fence = rng.choice(["```", "```", "~~~", "````", "~~~~"])
         info = rng.choice(["", "py", "python title=\"x\"", "c++", "a\\*b"])
@@ -150,7 +163,7 @@ def block(rng: random.Random, depth=0) -> list[str]:
             inner += block(rng, depth + 1)
         if rng.random() < 0.15:
             inner = ["[!" + rng.choice(["NOTE", "TIP", "WARNING", "note", "IMPORTANT", "CAUTION"]) + "]"] + inner
-        lazy = rng.random() < 0.2
+        lazy = _L(rng).random() < 0.2
         return [(">" + (" " if l else "") + l) if (i == 0 or not lazy or not l or l[0] in "->#`~|" or l[:1].isdigit()) else l for i, l in enumerate(inner)]
     if r < 0.76:
         ncol = rng.randint(1, 4)
@@ -186,14 +199,28 @@ def gen_doc(rng: random.Random, nblocks=None) -> str:
     out = []
     for i in range(n):
         if out:
-            out += [""] * rng.choice([1, 1, 1, 2])
+            out += [""] * _L(rng).choice([1, 1, 1, 2])
         out += block(rng, 0)
-    text = "\n".join(out) + rng.choice(["\n", "\n", "", "\n\n"])
-    if rng.random() < 0.05:
+    L = _L(rng)
+    text = "\n".join(out) + L.choice(["\n", "\n", "", "\n\n"])
+    if L.random() < 0.05:
         text = text.replace("\n", "\r\n")
-    if rng.random() < 0.05:
+    if L.random() < 0.05:
         text = "    " + text.replace("\n", "\n    ")   # uniformly indented (dedent)
     return text
+
+
+def gen_doc_layouts(content_seed: int, layout_seeds, nblocks=None) -> list[str]:
+    """the same content laid out once per layout seed"""
+    global LAYOUT
+    docs = []
+    try:
+        for ls in layout_seeds:
+            LAYOUT = random.Random(ls)
+            docs.append(gen_doc(random.Random(content_seed), nblocks))
+    finally:
+        LAYOUT = None
+    return docs
 
 
 MALFORMED_ALPHA = list("*_`[]()<>#-+=|~\\!\"'{}%.:/ \n\t") + ["\r", "\x00", "\x0c", "\u2028", "é", "日", "1", "a"]
